@@ -1,3 +1,4 @@
+use super::RuleSerializeError;
 use crate::{Rule, RuleCore};
 
 use ast_grep_core::language::Language;
@@ -43,6 +44,14 @@ impl<L: Language> GlobalRules<L> {
       return Err(ReferentRuleError::CyclicRule(id.to_string()));
     }
     Ok(())
+  }
+}
+
+impl<L: Language> GlobalRules<L> {
+  /// check if util rules used by global rules are defined.
+  /// It must be called after all global rules are registered.
+  pub(crate) fn verify_utils(&self) -> Result<(), RuleSerializeError> {
+    self.0.values().try_for_each(|rule| rule.verify_utils())
   }
 }
 
